@@ -97,6 +97,24 @@ async fn run_history(c: &Value) -> Value {
   for op in c["ops"].as_array().unwrap() {
     let mut note = Value::Null;
     match op["t"].as_str().unwrap() {
+      "ids" => {
+        // draw `count` correlation ids: first, last, how many distinct, any zero
+        let count = op["count"].as_u64().unwrap_or(70000);
+        let mut seen = std::collections::HashSet::new();
+        let mut first = 0u32;
+        let mut last = 0u32;
+        let mut zero = false;
+        for i in 0..count {
+          let id = client.next_id().await;
+          if i == 0 {
+            first = id;
+          }
+          last = id;
+          zero |= id == 0;
+          seen.insert(id);
+        }
+        note = json!({"first": first, "last": last, "distinct": seen.len(), "zero": zero, "count": count});
+      },
       "peer_stall" => {
         // the peer stays connected but stops (or resumes) reading
         peer_stalled = op.get("on").and_then(|v| v.as_bool()).unwrap_or(true);
